@@ -133,11 +133,24 @@ def wiring(ctx, rule="R06.3", only_flag=False):
     if isinstance(fs, ast.Name):
         defs = asg.get(fs.id, [])
         kinds = []
+        # a conditional expression contributes both of its values
+        vals = []
         for _, v in defs:
             if v is None:
+                vals.append(None)
+                continue
+            e0 = expand(fn, v, stop=(fs.id,))
+            todo_ = [e0]
+            while todo_:
+                x = todo_.pop()
+                if isinstance(x, ast.IfExp):
+                    todo_ += [x.body, x.orelse]
+                else:
+                    vals.append(x)
+        for e in vals:
+            if e is None:
                 kinds.append("?")
                 continue
-            e = expand(fn, v, stop=(fs.id,))
             k = "?"
             if isinstance(e, ast.Call) and norm(e.func).endswith("concatenate") and e.args:
                 a0 = e.args[0]
@@ -148,6 +161,9 @@ def wiring(ctx, rule="R06.3", only_flag=False):
                         and norm(a0.generators[0].iter) in ("self.terminal_info", "device.terminal_info()", "self.device.terminal_info()"):
                     k = "all-terminals"
             elif isinstance(e, ast.Call) and norm(e.func).endswith("array") and e.args and isinstance(e.args[0], ast.List) and not e.args[0].elts:
+                k = "empty"
+            elif isinstance(e, ast.Call) and norm(e.func).split(".")[-1] in ("zeros", "empty") and e.args and \
+                    ((isinstance(e.args[0], ast.Constant) and e.args[0].value == 0) or norm(e.args[0]) in ("(0,)", "[0]")):
                 k = "empty"
             kinds.append(k)
         detail = {"fixed_sites": fs.id, "definitions": [norm(expand(fn, v, stop=(fs.id,)))[:120] for _, v in defs if v is not None], "kinds": kinds}
